@@ -173,7 +173,7 @@ Proof.
 Qed.
 (* the guard is needed: len - K underflows *)
 Theorem last_kmer_short : (len < K)%nat -> last_kmer c len cget_kmer = None.
-Proof. intro H. unfold last_kmer, subn. fold K. destruct (Nat.leb_spec K len); [lia | reflexivity]. Qed.
+Proof. clear Hget Hgk Hl. clear cget. intro H. unfold last_kmer, subn. fold K. destruct (Nat.leb_spec K len); [lia | reflexivity]. Qed.
 
 Lemma kmer_iter_loop_spec : forall fuel kmer pos, wf K kmer -> (K <= pos)%nat -> (pos <= len)%nat ->
   decode K kmer = kmer_at K l (pos - K) -> (len - pos < fuel)%nat ->
